@@ -82,6 +82,9 @@ def trees(draw):
         # an input referenced through ../ (only for non-root scripts)
         node['up'] = bool(node['dir']) and draw(st.integers(0, 2)) == 0
         node['export_target'] = draw(st.booleans())
+        # includes a submodule whose script raises, handles the exception and
+        # carries on
+        node['failchild'] = draw(st.integers(0, 3)) == 0
         if not node['dir']:
             # exports are not allowed in the root script
             node['exports'] = {}
@@ -136,6 +139,17 @@ def render_tree(case, src, logfile):
                          '.txt'))
             sandbox.write_file(os.path.join(
                 src, posixpath.dirname(d), 'shared_' + tag + '.txt'), 'y\n')
+        if node.get('failchild'):
+            fd = 'broken_' + tag
+            sandbox.write_file(os.path.join(src, d, fd, 'build.bfg'),
+                               "export(never='seen')\n"
+                               "raise RuntimeError('deliberate')\n")
+            sandbox.write_file(os.path.join(src, d, 'late_in_' + tag + '.txt'),
+                               'z\n')
+            L += ['try:', '    submodule({!r})'.format(fd),
+                  'except Exception:', '    _log["caught"] = True',
+                  '_t2 = copy_file({!r}, {!r})'.format(
+                      'late_out_' + tag + '.txt', 'late_in_' + tag + '.txt')]
         for c in node['children']:
             rel = posixpath.relpath(c, d or '.')
             L.append('_r = submodule({!r})'.format(rel))
@@ -180,6 +194,8 @@ def prop_submodules(rec):
             labs.add('has-dotdot')
         if case['common']:
             labs.add('repeated-inclusion')
+        if any(n.get('failchild') for n in nodes):
+            labs.add('handled-failing-submodule')
         rec.case(labs, nontrivial=(
             [sorted(n['dir'].count('/') + (1 if n['dir'] else 0)
                     for n in nodes), ups, len(case['common_parents']),
@@ -279,6 +295,22 @@ def prop_submodules(rec):
                                         'Makefile has {}'.format(
                                             d, dep, sorted(rel.get(out, []))),
                                         case)
+                if node.get('failchild'):
+                    if not logs[d].get('caught'):
+                        raise Violation('sub/failing-submodule', 'script {!r}:'
+                                        ' the exception raised by a submodule '
+                                        'did not reach the including script'
+                                        .format(d), case)
+                    out = 'B:' + posixpath.join(d, 'late_out_' + tag + '.txt')
+                    inp = 'S:' + posixpath.join(d, 'late_in_' + tag + '.txt')
+                    if inp not in rel.get(out, set()):
+                        raise Violation(
+                            'sub/paths-after-failed-submodule', 'copy_file in '
+                            'script {!r} after a submodule that raised: '
+                            'expected target {} reading {}; the Makefile has '
+                            '{}'.format(d, out, inp, sorted(
+                                (k, sorted(v)) for k, v in rel.items()
+                                if tag in k)), case)
                 if node['up']:
                     out = 'B:' + posixpath.join(d, 'gen/up_' + tag + '.txt')
                     inp = 'S:' + posixpath.normpath(posixpath.join(
@@ -321,6 +353,8 @@ def arg_cases(draw):
         kind = draw(st.sampled_from(['store', 'store_int', 'store_true',
                                      'enable', 'with']))
         d = {'name': n, 'kind': kind}
+        if draw(st.integers(0, 2)) == 0:
+            d['alias'] = 'alt-' + n      # declared under two names
         if kind == 'store':
             d['default'] = draw(st.sampled_from([None, 'dflt', 'a b']))
         elif kind == 'store_int':
@@ -332,6 +366,8 @@ def arg_cases(draw):
     for d in decls:
         for _ in range(draw(st.sampled_from([0, 1, 1, 2]))):
             u = {'name': d['name'], 'x': draw(st.booleans())}
+            if d.get('alias') and draw(st.booleans()):
+                u['via'] = d['alias']
             if d['kind'] == 'store':
                 u['value'] = draw(st.sampled_from(['v1', 'two words', 'é',
                                                    '-dash', '']))
@@ -354,16 +390,18 @@ def dest(name):
 def options_script(decls):
     L = []
     for d in decls:
-        n = d['name']
+        n = repr(d['name'])
+        if d.get('alias'):
+            n += ', ' + repr(d['alias'])
         if d['kind'] == 'store':
-            L.append('argument({!r}, default={!r})'.format(n, d['default']))
+            L.append('argument({}, default={!r})'.format(n, d['default']))
         elif d['kind'] == 'store_int':
-            L.append('argument({!r}, type=int, default={!r})'.format(
+            L.append('argument({}, type=int, default={!r})'.format(
                 n, d['default']))
         elif d['kind'] == 'store_true':
-            L.append("argument({!r}, action='store_true')".format(n))
+            L.append("argument({}, action='store_true')".format(n))
         else:
-            L.append('argument({!r}, action={!r}, default={!r})'.format(
+            L.append('argument({}, action={!r}, default={!r})'.format(
                 n, d['kind'], d['default']))
     return '\n'.join(L) + '\n'
 
@@ -375,18 +413,19 @@ def command_line(case, flip=False):
         d = byname[u['name']]
         x = (not u['x']) if flip else u['x']
         pre = '--x-' if x else '--'
+        name = u.get('via', u['name'])
         if d['kind'] in ('store', 'store_int'):
             if u['eq']:
-                out.append('{}{}={}'.format(pre, u['name'], u['value']))
+                out.append('{}{}={}'.format(pre, name, u['value']))
             else:
-                out += [pre + u['name'], u['value']]
+                out += [pre + name, u['value']]
         elif d['kind'] == 'store_true':
-            out.append(pre + u['name'])
+            out.append(pre + name)
         else:
             word = {('enable', True): 'enable-', ('enable', False): 'disable-',
                     ('with', True): 'with-', ('with', False): 'without-'}[
                         (d['kind'], u['on'])]
-            out.append(pre + word + u['name'])
+            out.append(pre + word + name)
     return out
 
 
